@@ -3013,6 +3013,20 @@ bus_verif_connections_state (BusConnections *connections,
         VERIF_FAIL ("n_match_rules %d exceeds max_match_rules_per_connection", d->n_match_rules);
       if (d->link_in_monitors != NULL && d->n_services_owned != 0)
         VERIF_FAIL ("a monitor owns %d names", d->n_services_owned);
+      if (d->name != NULL)
+        {
+          DBusList *olink;
+
+          for (olink = _dbus_list_get_next_link (&connections->completed, link);
+               olink != NULL;
+               olink = _dbus_list_get_next_link (&connections->completed, olink))
+            {
+              BusConnectionData *od = BUS_CONNECTION_DATA ((DBusConnection *) olink->data);
+
+              if (od != NULL && od->name != NULL && strcmp (od->name, d->name) == 0)
+                VERIF_FAIL ("two connections share one unique name");
+            }
+        }
 
       for (plink = bus_expire_list_get_first_link (connections->pending_replies);
            plink != NULL;
